@@ -15,7 +15,17 @@ import (
 	"verif/engine/interp"
 )
 
-const RepoDir = "/repo"
+// RepoDir is the origami tree the encoding is generated from: /repo, unless VERIF_REPO names a scratch
+// copy (seeded-change experiments run against a copy so that /repo itself is never modified; the
+// registered checks never set it).
+var RepoDir = repoDir()
+
+func repoDir() string {
+	if d := os.Getenv("VERIF_REPO"); d != "" {
+		return d
+	}
+	return "/repo"
+}
 const OrigamiMod = "github.com/php-any/origami"
 
 // Overlay returns the virtual files injected into /repo (export shims).
@@ -98,6 +108,39 @@ func Load(verifDir, harnessPkg string) (*Loaded, error) {
 
 // GoEnv is the offline toolchain environment used for every go invocation.
 func GoEnv() []string {
-	return append(os.Environ(), "GOFLAGS=-mod=mod", "GOPROXY=off", "GOSUMDB=off", "GOTOOLCHAIN=local", "CGO_ENABLED=0",
+	flags := "GOFLAGS=-mod=mod"
+	if RepoDir != "/repo" {
+		// an alternative go.mod whose replace directive points at the scratch copy
+		flags += " -modfile=" + altModFile()
+	}
+	return append(os.Environ(), flags, "GOPROXY=off", "GOSUMDB=off", "GOTOOLCHAIN=local", "CGO_ENABLED=0",
 		"PATH=/opt/veriftools/go1.26.8/bin:"+os.Getenv("PATH"))
+}
+
+var altMod string
+
+// altModFile writes <tmp>/go.mod (+ go.sum) = /verif's with the origami replace redirected to RepoDir.
+func altModFile() string {
+	if altMod != "" {
+		return altMod
+	}
+	vd := os.Getenv("VERIF_DIR")
+	if vd == "" {
+		vd = "/verif"
+	}
+	dir, err := os.MkdirTemp("", "verif-altmod-")
+	if err != nil {
+		panic(err)
+	}
+	b, err := os.ReadFile(filepath.Join(vd, "go.mod"))
+	if err != nil {
+		panic(err)
+	}
+	mod := strings.Replace(string(b), "=> /repo", "=> "+RepoDir, 1)
+	os.WriteFile(filepath.Join(dir, "go.mod"), []byte(mod), 0o644)
+	if sum, err := os.ReadFile(filepath.Join(vd, "go.sum")); err == nil {
+		os.WriteFile(filepath.Join(dir, "go.sum"), sum, 0o644)
+	}
+	altMod = filepath.Join(dir, "go.mod")
+	return altMod
 }
